@@ -183,7 +183,7 @@ def _univariate(spec, ctx):
     if not ok:
         ctx.note('fit refused (not a fitted model)')
         return
-    expect = type(model._instance).__name__ if ms['cls'] == 'Univariate' else ms['cls']
+    expect = uni.selected_family(model) if ms['cls'] == 'Univariate' else ms['cls']
     where['family'] = expect
     inner = model._instance if ms['cls'] == 'Univariate' else model
     okd, dd = ctx.call(model.to_dict)
